@@ -3,7 +3,7 @@
    end-to-end statement of the selected generator. *)
 From Coq Require Import ZArith List Lia Bool.
 From EV Require Import Res Arr Join JoinSpec JoinBase JoinIface JoinRows JoinDriver JoinMain
-  MapStream MapStreamSpec MapIndexedDriver Merge MergeSpec MergeBase MergeOrdered MergeMaps.
+  MapStream MapStreamSpec MapStreamBase MapIndexedDriver Merge MergeSpec MergeBase MergeOrdered MergeMaps.
 Import ListNotations.
 Open Scope Z_scope.
 
@@ -18,22 +18,22 @@ Definition frame_ok (n:Z) (cols:frame) (bytes:Z) : Prop :=
     end.
 
 Lemma frame_ok_cols_ok n cols bytes inv m :
-  frame_ok n cols bytes -> valid_map n inv m -> cols_ok n cols (Some m) inv bytes.
+  frame_ok n cols bytes -> in_range_map n inv m -> cols_ok n cols (Some m) inv bytes.
 Proof.
   intros Hf Hv. split; [exact Hv|]. intros f Hin. specialize (Hf f Hin). unfold col_ok.
   destruct (snd f) as [z e d|idx vals]; [exact Hf|]. destruct Hf as (Hwf & Hn & Hfit). split; [exact Hwf|]. split; [exact Hn|].
-  intros t Ht Hne. apply Hfit. destruct Hv as (Hr & _). apply Hr; assumption.
+  intros t Ht Hne. apply Hfit. apply Hv; assumption.
 Qed.
 
-Lemma jmaps_valid how lu ru lk rk inv : how = 0 \/ how = 1 \/ how = 2 ->
-  sorted (sel_a how lk rk) -> sorted (sel_b how lk rk) -> nbd (sel_a how lk rk) (sel_b how lk rk) ->
-  (match fst (jmaps how lu ru lk rk inv) with Some m => valid_map (len lk) inv m | None => True end) /\
-  (match snd (jmaps how lu ru lk rk inv) with Some m => valid_map (len rk) inv m | None => True end).
+(* both join maps are in range — also when a key repeats on both sides and the b-side map is not monotone *)
+Lemma jmaps_in_range how lu ru lk rk inv : how = 0 \/ how = 1 \/ how = 2 ->
+  (match fst (jmaps how lu ru lk rk inv) with Some m => in_range_map (len lk) inv m | None => True end) /\
+  (match snd (jmaps how lu ru lk rk inv) with Some m => in_range_map (len rk) inv m | None => True end).
 Proof.
-  intros Hhow HA HB Hd. unfold jmaps.
+  intros Hhow. unfold jmaps.
   set (v := sel_variant how lu ru).
-  pose proof (join_fst_valid (v_left v) inv (sel_a how lk rk) (sel_b how lk rk)) as Hf.
-  pose proof (join_snd_valid (v_left v) inv _ _ HA HB Hd) as Hs.
+  pose proof (join_fst_in_range (v_left v) inv (sel_a how lk rk) (sel_b how lk rk)) as Hf.
+  pose proof (join_snd_in_range (v_left v) inv (sel_a how lk rk) (sel_b how lk rk)) as Hs.
   destruct Hhow as [E|[E|E]]; subst how; cbn [Z.eqb Pos.eqb sel_a sel_b fst snd] in *;
     destruct (v_writes_l v); cbn [fst snd]; split; auto.
 Qed.
@@ -55,9 +55,8 @@ Hypothesis Hhow : how = 0 \/ how = 1 \/ how = 2.
 Hypothesis Hmcs : 1 <= mcs.
 Hypothesis Hvf : 0 <= vf.
 Hypothesis Hccs : 1 <= ccs.
-Hypothesis HsortL : sorted lk.
-Hypothesis HsortR : sorted rk.
-Hypothesis Hnbd : nbd A B.                       (* no key repeated on both sides (else F-C02f) *)
+(* sorted key columns are what C03_selected needs to be satisfiable; the map streams themselves need nothing
+   of the keys since fix-F-C02f (jmaps_in_range) *)
 Hypothesis Hnolong : ~ LongRun (v_kind v) (v_left v) A B cs.     (* else the clear ValueError of C03 (F-C02g) *)
 Hypothesis Hlframe : frame_ok (len lk) lcols (mcs * vf).
 Hypothesis Hrframe : frame_ok (len rk) rcols (mcs * vf).
@@ -67,10 +66,7 @@ Theorem ordered_merge_correct_gen :
   ordered_merge MFixed how lu ru lk rk lcols rcols lsuf rsuf (len lk) (len rk) cs mcs vf ccs
   = Ok (ordered_dest how lu ru lk rk lcols rcols lsuf rsuf).
 Proof.
-  assert (HA : sorted A /\ sorted B).
-  { unfold A, B, sel_a, sel_b. destruct (how =? 1); split; assumption. }
-  destruct HA as (HA & HB).
-  destruct (jmaps_valid how lu ru lk rk inv Hhow HA HB Hnbd) as (Hvl & Hvr).
+  destruct (jmaps_in_range how lu ru lk rk inv Hhow) as (Hvl & Hvr).
   apply ordered_merge_ok; try assumption.
   - destruct C03_selected as [H|(_ & H)]; [|contradiction]. fold inv v A B. rewrite H.
     destruct v as [k isl]. reflexivity.
@@ -83,7 +79,7 @@ Qed.
 End Top.
 
 (* both unique hints given and truthful: no hypothesis about C03 is left (streamed_both_unique_correct),
-   no long run is possible (neither side is trimmed), no key repeats on both sides *)
+   no long run is possible (neither side is trimmed) *)
 Theorem ordered_merge_both_unique how lk rk lcols rcols lsuf rsuf cs mcs vf ccs :
   how = 0 \/ how = 1 \/ how = 2 -> 1 <= cs -> 1 <= mcs -> 0 <= vf -> 1 <= ccs ->
   ssorted lk -> ssorted rk ->
@@ -100,9 +96,6 @@ Proof.
   - left. assert (Hv : sel_variant how true true = mkvar KBU (v_left (sel_variant how true true))).
     { destruct Hhow as [E|[E|E]]; subst how; reflexivity. }
     rewrite Hv. cbn [v_kind v_left]. apply streamed_both_unique_correct; assumption.
-  - apply ssorted_sorted. exact HL.
-  - apply ssorted_sorted. exact HR.
-  - apply nbd_left_unique. exact HA.
   - assert (Hk : v_kind (sel_variant how true true) = KBU).
     { destruct Hhow as [E|[E|E]]; subst how; reflexivity. }
     rewrite Hk. intros [(Ht & _)|(Ht & _)]; cbv in Ht; discriminate.
